@@ -12,13 +12,15 @@ for table in ("exceptions", "known_findings", "baseline"):
     for r in rows:
         k = "%s\x00%s\x00%s" % (table, r["property"], r["key"])
         if k in shapes:
-            sh, _, loc = shapes[k].partition("\x00")
-            if r.get("shape") != sh or r.get("shape_local", "") != loc:
+            parts = (shapes[k].split("\x00") + ["", ""])[:3]
+            sh, loc, pk = parts
+            if r.get("shape") != sh or r.get("shape_local", "") != loc or r.get("shape_pkg", "") != pk:
                 r["shape"] = sh
-                if loc:
-                    r["shape_local"] = loc
-                else:
-                    r.pop("shape_local", None)
+                for name, val in (("shape_local", loc), ("shape_pkg", pk)):
+                    if val:
+                        r[name] = val
+                    else:
+                        r.pop(name, None)
                 n += 1
     with open(path, "w") as f:
         json.dump(rows, f, indent=1)
